@@ -134,10 +134,12 @@ struct Res {
   double se = 0;
 };
 // plane stress hypotheses (kind "ps", behaviour VfHyperPS): the axial component of the deformation gradients is not passed to the
-// behaviour (0, as a solver does) but through the state variable AxialStrain (beginning of the step) and the material property
+// behaviour (the caller passes 0 to the Green-Lagrange wrapper, which ADDS the axial stretch to that component, and 1 to the Hencky
+// wrapper, which takes the logarithm of the caller's component before it overwrites it: DESIGN.md 11.4) but through the state variable AxialStrain (beginning of the step) and the material property
 // ezz1 (end of the step); PS.iv1 is the axial strain returned by the last call
 struct PlaneStressSetting {
   bool on = false;
+  bool log = false;   // Hencky wrapper: AxialStrain = ln(axial stretch); Green-Lagrange: (a^2 - 1) / 2
   int axis = 2;   // diagonal component that carries the axial stretch (zz: 2 in plane stress, 1 in the 1D ordering rr zz tt)
   double iv1 = 0;
 };
@@ -155,9 +157,9 @@ static Res call(Beh& b, const M3& F0, const M3& F1, const std::vector<double>& s
   double iv0 = 0, iv1 = 0;
   if (PS.on) {
     const double a0 = static_cast<double>(F0[PS.axis][PS.axis]), a1 = static_cast<double>(F1[PS.axis][PS.axis]);
-    g0[PS.axis] = g1[PS.axis] = 0;
-    iv0 = iv1 = (a0 * a0 - 1) / 2;
-    mp.push_back((a1 * a1 - 1) / 2);
+    g0[PS.axis] = g1[PS.axis] = PS.log ? 1 : 0;   // see PlaneStressSetting
+    iv0 = iv1 = PS.log ? std::log(a0) : (a0 * a0 - 1) / 2;
+    mp.push_back(PS.log ? std::log(a1) : (a1 * a1 - 1) / 2);
   }
   double se0v = se0, se1 = SENT, de0 = 0, de1 = 0, rho = 1, T0 = 293.15, T1 = 293.15, rdt = 1, sos = 0;
   Res r;
@@ -522,11 +524,28 @@ static void treatCycle(Beh& b, const Json& c, Json& r, const bool isgl) {
 }
 
 // kind "ps": the three stress measures (no stiffness requested, total form of the law) and the axial strain written back
-static void treatPlaneStress(Beh& b, const Json& c, Json& r) {
+static void treatPlaneStress(Beh& b, const Json& c, Json& r, const bool isgl) {
   const Material m{2.0 * double(c["l2"].asInt()), double(c["mu"].asInt())};
-  const M3 F0 = fromRowMajor(c["F0"].asInts()), F1 = fromRowMajor(c["F1"].asInts());
+  const M3 F0 = fromRowMajor(c["F0"].asInts());
+  M3 F1;
+  if (isgl) {
+    F1 = fromRowMajor(c["F1"].asInts());
+  } else {   // as in treatPoint; the rotations are about z, the axial stretch is exactly 2^k
+    const auto k = c["k"].asInts();
+    const M3 Q = quat(c["q"].asInts()), R = quat(c["r"].asInts());
+    M3 D{};
+    for (int i = 0; i < 3; ++i) D[i][i] = std::ldexp(ld(1), static_cast<int>(k[i]));
+    F1 = mul(R, mul(Q, mul(D, tr(Q))));
+    for (int i = 0; i < 3; ++i)
+      for (int j = 0; j < 3; ++j) F1[i][j] = ld(static_cast<double>(F1[i][j]));
+  }
   const ld J1 = det3(F1);
+  auto kStress = [&](const int sm) -> ld {
+    if (isgl) return sm == 0 ? J1 : ld(1);
+    return ld(sm == 0 ? c["ksig"].asInt() : (sm == 1 ? c["kpk2"].asInt() : c["kpk1"].asInt())) / LN2;
+  };
   PS.on = true;
+  PS.log = !isgl;
   PS.axis = b.N == 1 ? 1 : 2;
   Json calls = Json::array();
   for (int sm = 0; sm < 3; ++sm) {
@@ -534,8 +553,10 @@ static void treatPlaneStress(Beh& b, const Json& c, Json& r) {
     bool tight = true;
     Json o = Json::object();
     o.set("sm", Json(sm)).set("ret", Json(res.ret));
-    o.set("v", intsOf(stressToM3(res.f, sm, b.N), sm == 0 ? J1 : ld(1), tight)).set("tight", Json(tight));
-    const auto e = vp::exact(2 * PS.iv1, 1.0, 1e-8 * std::max(1.0, std::fabs(2 * PS.iv1)));
+    o.set("v", intsOf(stressToM3(res.f, sm, b.N), kStress(sm), tight)).set("tight", Json(tight));
+    // axial strain written back: 2 ezz (Green-Lagrange), ezz / ln 2 (Hencky)
+    const double x = isgl ? 2 * PS.iv1 : static_cast<double>(ld(PS.iv1) / LN2);
+    const auto e = vp::exact(x, 1.0, 1e-8 * std::max(1.0, std::fabs(x)));
     o.set("ezz2", Json(e.q)).set("etight", Json(e.tight));
     calls.push(o);
   }
@@ -566,8 +587,8 @@ int main(int argc, char** argv) {
     try {
       if (kind == "cycle")
         treatCycle(b, c, r, beh == "VfHyperGL");
-      else if (kind == "ps")
-        treatPlaneStress(b, c, r);
+      else if (kind == "ps" || kind == "pslog")
+        treatPlaneStress(b, c, r, kind == "ps");
       else
         treatPoint(b, c, r, kind == "gl");
     } catch (std::exception& e) {
